@@ -17,14 +17,15 @@ Variable cfg : config.
 Variable m : mode.
 
 Lemma so_create_spec s k kvs :
-  Inv cfg m [] s -> fault s = None ->
+  Inv cfg m [] s ->
   match so_create cfg k kvs s with
   | (Ret o, s') => Inv cfg m [] s' /\ ok_obj m s' o /\ slots s' = slots s
   | (Raise _, s') => Inv cfg m [] s' /\ slots s' = slots s
   end.
 Proof.
-  intros H Hf. rewrite so_create_unfold.
-  destruct (fill_defaults all_cols (as_dict kvs)) as [kw|]; [|split; [exact H|reflexivity]].
+  intros H. rewrite so_create_unfold.
+  destruct (fill_defaults all_cols (as_dict kvs)) as [kw|] eqn:Efd; [|split; [exact H|reflexivity]].
+  destruct (fill_defaults_spec all_cols (as_dict kvs) kw Efd (NoDup_as_dict kvs)) as (Hnd & Hall & _).
   unfold bind at 1.
   destruct (validate_all_run kw s) as [Ev|Ev]; rewrite Ev; [|split; [exact H|reflexivity]].
   unfold bind at 1.
@@ -37,37 +38,36 @@ Proof.
   assert (Hlen0 : length r0 = 3%nat) by (unfold r0; now rewrite length_apply_updates).
   assert (H1 : Inv cfg m [] s1).
   { rewrite Es1, Eid. apply (Inv_insert cfg m [] (with_log s _) k r0); [apply Inv_log; exact H|exact Hlen0]. }
-  assert (Ef1 : fault s1 = None) by (rewrite Es1; exact Hf).
   assert (Er : assoc id1 (t_rows (tbl s1 k)) = Some r0).
   { rewrite Es1. unfold tbl. cbn. rewrite tgs. cbn. rewrite assoc_app. fold (tbl s k).
     rewrite (twf_fresh (tbl s k) id1 (inv_T _ _ _ _ H k)) by lia. cbn. now rewrite Z.eqb_refl. }
   assert (Tn1 : t_next (tbl s1 k) = id1 + 1) by (rewrite Es1; unfold tbl; cbn; rewrite tgs; reflexivity).
   assert (Hsame : heap s1 = heap s /\ slots s1 = slots s /\ caches s1 = caches s) by (rewrite Es1; auto).
   destruct Hsame as (Eh1 & Esl1 & Ec1).
-  destruct (create_tail_run cfg k kw id1 s1) as (c' & i1 & Ei1 & (Ek1 & Eo1 & Ep1 & Ed1 & Ee1 & Ecc) & Et). cbn zeta in Et.
-  rewrite Et, Ef1, Er. clear Et.
+  destruct (create_tail_run cfg k kw id1 s1) as (c' & i1 & Ei1 & (Ek1 & Eo1 & Ep1 & Ed1 & Ee1 & Ev1 & Ecc) & Et). cbn zeta in Et.
+  rewrite Et, Er. clear Et.
   set (o := length (heap s1)) in *.
-  set (ifin := i_with_cv (i_with_dirty (i_with_pending (i_with_vals i1 (row_vals r0)) []) false) true).
-  set (s2 := with_heap s1 (heap s1 ++ [ifin])).
-  assert (H2 : Inv cfg m [] s2) by (apply Inv_new; [exact H1|exact Eo1|split; [reflexivity|split; [reflexivity|exact Ee1]]]).
-  assert (Go : Orm.get_inst s2 o = ifin) by (unfold Orm.get_inst, s2, o; cbn; apply nth_middle).
+  set (s2 := with_heap s1 (heap s1 ++ [i1])) in *.
+  assert (Hhp1 : hp i1).
+  { split; [unfold dirty_ok, has_pending; rewrite Ed1, Ep1; reflexivity|]. split; [intros _; exact Ep1|exact Ee1]. }
+  assert (H2 : Inv cfg m [] s2) by (apply Inv_new; [exact H1|exact Eo1|exact Hhp1]).
+  assert (Go : Orm.get_inst s2 o = i1) by (unfold Orm.get_inst, s2, o; cbn; apply nth_middle).
   assert (Hlt2 : (o < length (heap s2))%nat) by (unfold s2, o; cbn; rewrite app_length; cbn; lia).
-  assert (Hb : ok_base m s2 ifin).
-  { unfold ok_base. cbn. rewrite Ek1, Ei1. change (tbl s2 k) with (tbl s1 k). split; [lia|]. split.
+  (* before its reload the new instance shows what was inserted *)
+  assert (Hb1 : ok_base m s2 i1).
+  { unfold ok_base. rewrite Ek1, Ei1. change (tbl s2 k) with (tbl s1 k). split; [lia|]. split.
     - intros _ _. unfold row_exists. change (tbl s2 k) with (tbl s1 k). congruence.
-    - intros _. split; [now apply vals3_row|]. intros _ _ c v Hv. cbn in *. rewrite Ek1, Ei1.
-      change (tbl s2 k) with (tbl s1 k). exists r0. split; [exact Er|now apply nth_row_vals]. }
-  (* the cache bookkeeping is the same whatever the heap holds *)
-  pose proof (hind_cache_created cfg k id1 o (with_heap s1 (heap s1 ++ [i1])) (heap s1 ++ [ifin])) as Hh.
-  rewrite Ecc in Hh. cbn [fst snd] in Hh.
-  change (with_heap (with_heap s1 (heap s1 ++ [i1])) (heap s1 ++ [ifin])) with s2 in Hh.
+    - intros _. rewrite Ev1, fold_set_val_vals. cbn [blank_inst i_vals].
+      destruct (create_vals kw Hnd Hall) as (V & S). cbn zeta in V, S. split; [exact V|].
+      intros _ _ c v Hv. rewrite Ep1. cbn [nassoc]. rewrite Ek1, Ei1. change (tbl s2 k) with (tbl s1 k).
+      exists r0. split; [exact Er|]. apply S. rewrite Ev1, fold_set_val_vals in Hv. exact Hv. }
   destruct (cache_created_spec cfg m k id1 o s2 H2) as (c'' & Ec'' & H3 & R3).
   - intros a Hc. apply (fresh_not_cached cfg m [] s1 k a H1). exact Hc.
   - exact Hlt2.
-  - rewrite Go. cbn. exact Ek1.
-  - rewrite Go. cbn. exact Ei1.
-  - rewrite Go. exact Hb.
-  - rewrite Go. cbn. exact Eo1.
+  - rewrite Go. exact Ek1.
+  - rewrite Go. exact Ei1.
+  - rewrite Go. exact Hb1.
+  - rewrite Go. exact Eo1.
   - intros x Hx Hc Ek Ei _.
     assert (Hx0 : live s [] x).
     { destruct Hx as [[]|[Hx|(k' & a & Hx)]]; [right; left; rewrite <- Esl1; exact Hx|right; right; exists k', a].
@@ -76,13 +76,34 @@ Proof.
     assert (Gx : Orm.get_inst s2 x = Orm.get_inst s x).
     { unfold Orm.get_inst, s2. cbn. rewrite app_nth1 by (rewrite Eh1; exact Hxlt). now rewrite Eh1. }
     rewrite Gx in Ek, Ei. rewrite Ek, Ei in B1. lia.
-  - rewrite Ec'' in Hh. inversion Hh as [Hc]. subst c''.
-    set (sF := with_heap _ _).
-    assert (HF : Inv cfg m [] sF) by (apply (Inv_live cfg m [] [] (with_caches s2 c')); auto).
+  - rewrite Ec'' in Ecc. inversion Ecc as [Hc]. subst c''. clear Ecc.
+    set (s3 := with_caches s2 c') in *.
+    set (s4 := with_log s3 (SSelectOne k id1 all_cols :: log s1)).
+    assert (H4 : Inv cfg m [] s4) by (apply Inv_log; exact H3).
+    destruct (match fault s1 with Some n => Nat.eqb n (length (log s1)) | None => false end).
+    { (* the re-read fails: the row is stored and the instance registered, though the constructor raises *)
+      split; [exact H4|exact Esl1]. }
+    set (ifin := i_with_cv (i_with_dirty (i_with_pending (i_with_vals i1 (row_vals r0)) []) false) true).
+    assert (Eh4 : heap s1 ++ [ifin] = set_nth o ifin (heap s4)).
+    { unfold s4, s3, s2, o. cbn. symmetry. apply set_nth_last. }
+    rewrite Eh4.
+    assert (G4 : Orm.get_inst s4 o = i1) by exact Go.
+    assert (Hlt4 : (o < length (heap s4))%nat) by exact Hlt2.
+    assert (Hshow : vals3 (i_vals ifin) /\ shows s4 ifin).
+    { split; [now apply vals3_row|]. intros c v Hv. cbn in *. rewrite Ek1, Ei1. change (tbl s4 k) with (tbl s1 k).
+      exists r0. split; [exact Er|now apply nth_row_vals]. }
+    set (sF := with_heap s4 (set_nth o ifin (heap s4))).
+    assert (HF : Inv cfg m [] sF).
+    { apply Inv_upd; try assumption; rewrite ?G4; try reflexivity.
+      - split; [reflexivity|]. split; [reflexivity|exact Ee1].
+      - intros _ _. destruct Hshow as (V & S). split; [exact V|intros _ _; exact S]. }
+    assert (GF : Orm.get_inst sF o = ifin) by (apply get_inst_set_same; exact Hlt4).
     split; [exact HF|]. split; [|exact Esl1].
-    split; [exact Hlt2|]. change (Orm.get_inst sF o) with (Orm.get_inst s2 o). rewrite Go.
-    split; [exact Hb|]. unfold ok_reg. change (Orm.get_inst sF o) with (Orm.get_inst s2 o). rewrite Go. cbn.
-    rewrite Ek1, Ei1. intros _ _. exact R3.
+    split; [unfold sF; cbn; rewrite length_set_nth; exact Hlt4|]. rewrite GF. split.
+    + unfold ok_base. cbn. rewrite Ek1, Ei1. change (tbl sF k) with (tbl s1 k). split; [lia|]. split.
+      * intros _ _. unfold row_exists. change (tbl sF k) with (tbl s1 k). congruence.
+      * intros _. destruct Hshow as (V & S). split; [exact V|]. intros _ _. exact S.
+    + unfold ok_reg. rewrite GF. cbn. rewrite Ek1, Ei1. intros _ _. exact R3.
 Qed.
 
 End Create.
